@@ -798,7 +798,7 @@ class Fxp():
                 if vdtype is not None and vdtype != complex and np.issubdtype(vdtype, np.unsignedinteger):
                     vdtype = int    # (the transformed values can be negative: they must not be cast back to an unsigned type)
             if self.bias != 0:
-                if val.dtype.kind in 'iu' and val.size > 0 and max(abs(int(np.max(val))), abs(int(np.min(val))), abs(self.bias)) >= 2**62:
+                if val.dtype.kind in 'iu' and val.size > 0 and max(abs(int(np.max(val))), abs(int(np.min(val))), abs(int(self.bias) if isinstance(self.bias, np.integer) else self.bias)) >= 2**62:
                     val = val.astype(object)    # integers close to the 64 bits limits: the bias is subtracted with python integers
                 val = val - self.bias
             if self.scale != 1:
